@@ -36,6 +36,8 @@ type memStore struct {
 	email      string
 	// created lists every commit object written, in creation order
 	created []githash.Hash
+	// signOver, when set, is signed instead of the object's own payload
+	signOver []byte
 }
 
 func newMemStore() *memStore {
@@ -612,6 +614,9 @@ func (m *memStore) createCommit(treeID githash.Hash, parents []githash.Hash, mes
 		}
 		r, _ := enc.Reader()
 		payload, _ := io.ReadAll(r)
+		if m.signOver != nil { // test hook: sign other content (a "lifted" signature)
+			payload = m.signOver
+		}
 		s, err := gitinterface.VerifSignGitObject(payload, key)
 		if err != nil {
 			return nil, err
